@@ -132,10 +132,15 @@ def slug(s, n=48):
     return out.strip("-")[:n]
 
 
+def _arg(s):
+    """a stack argument: hex by default; '@text' is passed as written (inline functions, decimal numbers)"""
+    return s[1:] if s.startswith("@") else "0x" + s
+
+
 def run_batch(bdir, cwd, delivery, xargs, xenv, pre, script_hex, stack):
     """pre: option arguments that belong to the case itself (-f…, --tx=…). script_hex None = no script (auto-config)."""
     exe = os.path.join(bdir, "btcdeb")
-    sargs = ["0x" + s for s in stack]
+    sargs = [_arg(s) for s in stack]
     sc = ("0x" + script_hex) if script_hex is not None else None
     if delivery.startswith("stdin-line"):
         line = ((sc or "") + LINE_END[delivery.split("/")[0]]).encode()
@@ -149,7 +154,7 @@ def run_tty(bdir, cwd, pre, script_hex, stack, nsteps):
     """forced-interactive session: nsteps x step, then stack. Returns (proc result, first error text | None,
     stack bottom->top | None)."""
     exe = os.path.join(bdir, "btcdeb_tty")
-    argv = [exe] + pre + (["0x" + script_hex] if script_hex is not None else []) + ["0x" + s for s in stack]
+    argv = [exe] + pre + (["0x" + script_hex] if script_hex is not None else []) + [_arg(s) for s in stack]
     ncmd = nsteps + 1
     # a leading blank keeps kerl from appending the command to .btcdeb_history
     t = pu.run_proc(argv, data=(" step\n" * nsteps + " stack\n").encode(), cwd=cwd)
@@ -421,6 +426,19 @@ def gen_tx_cases(bdir):
     return out
 
 
+def inline_cases():
+    """stack arguments written with inline functions / as decimal numbers: what reaches the stack is the function's value, and nothing but
+    the final stack goes to stdout"""
+    prog = "751e76e8199196d454941c45d1b3a323f1433bd6"
+    return [
+        dict(label="arg:bech32dec", pre=[], script="51", stack=["@bech32dec(bc1qw508d6qejxtdg4y5r3zarvary0c5xw7kv8f3t4)"], expect=("ok", [prog, "01"]), fl=""),
+        dict(label="arg:sha256", pre=[], script="51", stack=["@sha256(0x01)"], expect=("ok", ["4bf5122f344554c53bde2ebb8cd2b7e3d1600ad631c385a5d7cce23c7785459a", "01"]), fl=""),
+        dict(label="arg:decimal", pre=[], script="93", stack=["@7", "@300"], expect=("ok", ["3301"]), fl=""),
+        dict(label="arg:reverse", pre=[], script="51", stack=["@reverse(0x010203)"], expect=("ok", ["030201", "01"]), fl=""),
+        dict(label="arg:base58chkdec", pre=[], script="51", stack=["@base58chkdec(1BgGZ9tcN4rm9KBzDn7KprQz87SZ26SAMH)"], expect=("ok", ["00751e76e8199196d454941c45d1b3a323f1433bd6", "01"]), fl=""),
+    ]
+
+
 def tx_cases(repo):
     tx = open(os.path.join(repo, "doc/txs/p2pkh-tx")).read().strip()
     txin = open(os.path.join(repo, "doc/txs/p2pkh-in")).read().strip()
@@ -546,7 +564,7 @@ def run(ctx):
                     V.add("error-text-ambiguous:ref=" + e, "failures of reference class %s are reported with %d different texts: %s" % (
                         e, len(d), "; ".join("%r for %s" % (t, describe(c)) for t, (o, c) in ex[:3])), {"kind": "case", "case": ex[-1][1][1]})
             # -- --tx slice
-            tcs = tx_cases(ctx.repo) + gen_tx_cases(bdir)
+            tcs = tx_cases(ctx.repo) + gen_tx_cases(bdir) + inline_cases()
             txres = pool.map(check_tx_case, [(bdir, scratch, tc) for tc in tcs], 1)
             tx_hist = {}
             rep_list = []
